@@ -92,7 +92,7 @@ def gen_case(rng, max_m=8, n_max=7, allow=("r", "rhomid", "coincide", "modes")):
     lam = [rng.randrange(4, 25) / 8 for _ in range(m)]
     mu = [rng.randrange(2, 17) / 8 for _ in range(m)]
     psi = [rng.randrange(1, 13) / 8 for _ in range(m)]
-    rho = [(rng.choice([0.0, 0.0, 0.25]) if "rhomid" in allow else 0.0) for _ in range(m - 1)] + [rng.choice([0.0, 0.5, 0.5])]
+    rho = [(rng.choice([0.0, 0.0, 0.25]) if "rhomid" in allow else 0.0) for _ in range(m - 1)] + [rng.choice([0.0, 0.5, 0.5, 1.0])]
     r = [rng.choice([0.0, 0.5, 1.0]) for _ in range(m)] if ("r" in allow and rng.random() < 0.3) else None
     return {"lam": lam, "mu": mu, "psi": psi, "rho": rho, "times": times, "r": r, "survival": rng.random() < 0.5,
             "tips": tips, "ints": ints, "tree": tree, "mode": mode, "root_edge": mode == "given" and rng.random() < 0.2,
@@ -320,6 +320,8 @@ def run(ck: Check):
             rep = drv.ask("opts")
             ck.extra["options_table"] = rep
         options_behaviour(ck, fail)
+        histories(ck, fail)
+        batches(ck, drv, fail)
         # ---------------------------------------------------------------- epidemiology_to_birth_death, bit-exact
         if drv:
             for _ in range(40):
@@ -351,6 +353,10 @@ def run(ck: Check):
                     bucket=f"m={m if m < 5 else '5-8'}/{feats[0]}",
                     sample={"case": {k: c[k] for k in ('lam', 'rho', 'times', 'r', 'tips', 'ints', 'survival', 'mode')}, "impl": val} if idx % 97 == 0 else None)
             replay = {"case": slim(c)}
+            if kind == "ok" and math.isnan(val):
+                fail(f"bdsk:log_prob-nan:{'rho-one' if 1.0 in c['rho'] else feats[0]}", f"log_prob is NaN on a valid input [{', '.join(feats)}; rho = {c['rho']}, r = {c['r']}]",
+                     dict(replay, impl="nan"))
+                continue
             if kind != "ok":
                 fail(f"bdsk:log_prob-fails:{feats[0]}", f"log_prob {'returns a vector ' + str(val) if kind == 'vector' else 'raises ' + val} [{', '.join(feats)}]",
                      dict(replay, impl=[kind, val]))
@@ -555,6 +561,194 @@ def options_behaviour(ck, fail):
                      f"the distribution built directly with {opt} gives {vd!r}", {"option": opt, "spec": spec, "case": slim(c)})
 
 
+def histories(ck, fail):
+    """live objects: build BDSKModel / BirthDeathModel once, then change ONE parameter at a time through
+    Parameter.tensor and re-evaluate; every value must equal that of a model built afresh from the current values"""
+    torch = T()["torch"]
+    rng = ck.rng
+    tt = lambda v: torch.tensor(v, dtype=torch.float64)  # noqa: E731
+    for trial in range(6 if not ck.thorough() else 30):
+        c = gen_case(rng, max_m=3, n_max=4, allow=("coincide", "rhomid"))
+        c["mode"], c["root_edge"], c["short_rho"], c["r"] = "given", False, False, None
+        m = len(c["lam"])
+        with_r = rng.random() < 0.4
+        for cls in (("BDSKModel", "BirthDeathModel") if m == 1 else ("BDSKModel",)):
+            st = {"R": [l / (mu + ps) for l, mu, ps in zip(c["lam"], c["mu"], c["psi"])], "delta": [mu + ps for mu, ps in zip(c["mu"], c["psi"])],
+                  "s": [ps / (mu + ps) for mu, ps in zip(c["mu"], c["psi"])], "lambda": list(c["lam"]), "mu": list(c["mu"]), "psi": list(c["psi"]),
+                  "rho": list(c["rho"]), "origin": [c["times"][-1]], "times": list(c["times"][:-1]), "tree.heights": list(c["ints"]),
+                  "rem": [0.5] * m}
+
+            def spec_of(st):
+                cc = dict(c, ints=list(st["tree.heights"]))
+                if cls == "BDSKModel":
+                    sp = {"id": "model", "type": "BDSKModel", "tree_model": tree_json(cc), "R": P("R", st["R"]), "delta": P("delta", st["delta"]),
+                          "s": P("s", st["s"]), "rho": P("rho", st["rho"]), "origin": P("origin", st["origin"]), "survival": c["survival"]}
+                    if m > 1:
+                        sp["times"] = P("times", st["times"])
+                    if with_r:
+                        sp["removal_probability"] = P("rem", st["rem"])
+                    return sp
+                return {"id": "model", "type": "BirthDeathModel", "tree_model": tree_json(cc), "lambda": P("lambda", st["lambda"]), "mu": P("mu", st["mu"]),
+                        "psi": P("psi", st["psi"]), "rho": P("rho", st["rho"]), "origin": P("origin", st["origin"]), "survival": c["survival"]}
+
+            try:
+                model, dic = build(spec_of(st))
+                model()
+            except Exception as e:
+                fail(f"{cls}:history-raises:{type(e).__name__}", f"{cls} built from JSON raises {e!r}"[:200], {"case": slim(c), "spec": spec_of(st)})
+                continue
+            names = (["R", "delta", "s"] if cls == "BDSKModel" else ["lambda", "mu", "psi"]) + ["rho", "origin", "tree.heights"]
+            if cls == "BDSKModel" and m > 1:
+                names.append("times")
+            if cls == "BDSKModel" and with_r:
+                names.append("rem")
+            hist = []
+            for step in range(6):
+                nm = rng.choice(names)
+                if nm in ("R", "delta", "lambda", "mu", "psi"):
+                    st[nm] = [v * rng.choice([0.75, 1.25]) for v in st[nm]]
+                elif nm == "s":
+                    st[nm] = [min(0.875, v * rng.choice([0.75, 1.125])) for v in st[nm]]
+                elif nm == "rho":
+                    st[nm] = st[nm][:-1] + [rng.choice([0.0, 0.25, 0.5, 1.0])]
+                elif nm == "origin":
+                    st[nm] = [st[nm][0] + 0.125]
+                elif nm == "tree.heights":
+                    st[nm] = [h + 1 / 64 for h in st[nm]]
+                elif nm == "times":
+                    st[nm] = [0.0] + [v - 1 / 128 for v in st[nm][1:]]
+                elif nm == "rem":
+                    st[nm] = [rng.choice([0.0, 0.25, 1.0])] * m
+                hist.append(nm)
+                replay = {"case": slim(c), "class": cls, "history": list(hist), "state": dict(st), "with_removal": with_r}
+                try:
+                    dic[nm].tensor = tt(st[nm])
+                    v = float(model().reshape(()).item())
+                    fresh, _ = build(spec_of(st))
+                    fv = float(fresh().reshape(()).item())
+                except Exception as e:
+                    fail(f"{cls}:history-raises:{type(e).__name__}", f"{cls}: after updating {hist} evaluation raises {e!r}"[:220], replay)
+                    break
+                ck.case(("history", cls, trial, step), nontrivial=True, bucket=f"history/{cls}/{nm}")
+                if not (close(v, fv, 1e-12) or (math.isnan(v) and math.isnan(fv))):
+                    fail(f"{cls}:stale-after-update:{nm}", f"{cls}: after updating {nm} through Parameter.tensor (history {hist}) the model returns {v!r}, "
+                         f"a freshly built model {fv!r}", replay)
+                    break
+
+
+def batches(ck, drv, fail):
+    """batched evaluation in which ONE sample holds a special value (rho exactly 0 or 1 at the present, equal rates across
+    epochs, a boundary exactly on a sampling time, all tips contemporaneous) and the others do not: every row must equal
+    the evaluation of that sample alone (implementation) and the Lean model on that slice"""
+    torch = T()["torch"]
+    bdsk = T()["bdsk"]
+    rng = ck.rng
+    tt = lambda v: torch.tensor(v, dtype=torch.float64)  # noqa: E731
+    for trial in range(12 if not ck.thorough() else 80):
+        base = gen_case(rng, max_m=4, n_max=5, allow=("rhomid",))
+        if len(base["lam"]) < 2 or all(h == 0 for h in base["tips"]):
+            continue
+        base["mode"], base["root_edge"], base["short_rho"] = "given", False, False
+        m = len(base["lam"])
+        T_ = base["times"][-1]
+        use_r = rng.random() < 0.3
+        base["r"] = [rng.choice([0.0, 0.5, 1.0]) for _ in range(m)] if use_r else None
+        special = rng.choice(["rho-last-0", "rho-last-1", "equal-rates", "boundary-on-tip", "all-contemporaneous"])
+        samples = []
+        for k in range(3):
+            c = dict(base)
+            c["lam"] = [v * (1 + 0.125 * k) for v in base["lam"]]
+            c["rho"] = base["rho"][:-1] + [0.5]
+            if k == 1:
+                if special == "rho-last-0":
+                    c["rho"] = base["rho"][:-1] + [0.0]
+                elif special == "rho-last-1":
+                    c["rho"] = base["rho"][:-1] + [1.0]
+                elif special == "equal-rates":
+                    c["lam"], c["mu"], c["psi"] = [base["lam"][0]] * m, [base["mu"][0]] * m, [base["psi"][0]] * m
+                elif special == "boundary-on-tip":
+                    ys = sorted({T_ - h for h in base["tips"] if 0 < T_ - h < T_})
+                    if ys:
+                        y = rng.choice(ys)
+                        inner = sorted(set([b for b in base["times"][1:-1] if b != y][: m - 2] + [y]))
+                        if len(inner) == m - 1:
+                            c["times"] = [0.0] + inner + [T_]
+                elif special == "all-contemporaneous":
+                    shift = max(base["tips"])
+                    c["tips"] = [0.0] * len(base["tips"])
+                    c["ints"] = sorted(min(T_ - 1 / 16, h) for h in base["ints"])
+            samples.append(c)
+        try:
+            d = bdsk.PiecewiseConstantBirthDeath(
+                tt([c["lam"] for c in samples]), tt([c["mu"] for c in samples]), tt([c["psi"] for c in samples]),
+                rho=tt([c["rho"] for c in samples]), origin=tt([[T_]] * 3), times=tt([c["times"][:-1] for c in samples]),
+                survival=base["survival"], removal_probability=None if not use_r else tt([c["r"] for c in samples]))
+            v = d.log_prob(tt([c["tips"] + c["ints"] for c in samples]))
+            rows = [float(x) for x in v.reshape(-1).tolist()]
+            err = None if len(rows) == 3 else f"result has shape {list(v.shape)}"
+        except Exception as e:
+            rows, err = None, f"{type(e).__name__}: {str(e)[:120]}"
+        replay = {"special": special, "samples": [slim(c) for c in samples], "case": slim(samples[1])}
+        ck.case(("batch", trial), nontrivial=True, bucket="batch/" + special)
+        singles = [impl_value(c) for c in samples]
+        if err is not None:
+            if all(k == "ok" for k, _ in singles):
+                fail(f"bdsk:batch-fails:{special}", f"batched log_prob (sample 1 special: {special}) fails: {err}; every sample alone evaluates", replay)
+            continue
+        for k, (c, (kind, sv)) in enumerate(zip(samples, singles)):
+            if kind != "ok":
+                continue
+            if math.isnan(rows[k]):
+                fail(f"bdsk:log_prob-nan:{'rho-one' if 1.0 in c['rho'] else special}", f"batched log_prob row {k} is NaN on a valid sample (sample 1 special: {special}; "
+                     f"rho = {c['rho']}, r = {c['r']})", dict(replay, case=slim(c), row=k, batched=rows))
+                break
+            if not close(rows[k], sv, 1e-12):
+                fail(f"bdsk:batch-row-differs:{special}", f"batched log_prob row {k} = {rows[k]!r}, the same sample alone gives {sv!r} "
+                     f"(sample 1 special: {special})", dict(replay, row=k, batched=rows, alone=[x[1] for x in singles]))
+                break
+            if drv:
+                mv = model_value(drv, c, effective_times(c))
+                if mv is not None and not close(rows[k], mv["value"]):
+                    ck.mismatch("batched row differs from the Lean model on that slice", {"special": special, "row": k, "impl": rows[k], "model": mv["value"], "case": slim(c)})
+
+
+def histories_replay(obj, out):
+    """re-run a recorded update history on a live model"""
+    torch = T()["torch"]
+    c = _fix_tree(obj["case"])
+    cls, m = obj["class"], len(obj["case"]["lam"])
+    st = {"R": [l / (mu + ps) for l, mu, ps in zip(c["lam"], c["mu"], c["psi"])], "delta": [mu + ps for mu, ps in zip(c["mu"], c["psi"])],
+          "s": [ps / (mu + ps) for mu, ps in zip(c["mu"], c["psi"])], "lambda": list(c["lam"]), "mu": list(c["mu"]), "psi": list(c["psi"]),
+          "rho": list(c["rho"]), "origin": [c["times"][-1]], "times": list(c["times"][:-1]), "tree.heights": list(c["ints"]), "rem": [0.5] * m}
+
+    def spec_of(st):
+        cc = dict(c, ints=list(st["tree.heights"]))
+        if cls == "BDSKModel":
+            sp = {"id": "model", "type": "BDSKModel", "tree_model": tree_json(cc), "R": P("R", st["R"]), "delta": P("delta", st["delta"]),
+                  "s": P("s", st["s"]), "rho": P("rho", st["rho"]), "origin": P("origin", st["origin"]), "survival": c["survival"]}
+            if m > 1:
+                sp["times"] = P("times", st["times"])
+            if obj.get("with_removal"):
+                sp["removal_probability"] = P("rem", st["rem"])
+            return sp
+        return {"id": "model", "type": "BirthDeathModel", "tree_model": tree_json(cc), "lambda": P("lambda", st["lambda"]), "mu": P("mu", st["mu"]),
+                "psi": P("psi", st["psi"]), "rho": P("rho", st["rho"]), "origin": P("origin", st["origin"]), "survival": c["survival"]}
+
+    try:
+        model, dic = build(spec_of(st))
+        model()
+        # the final state is recorded; apply it parameter by parameter in the order of the history
+        for nm in obj["history"]:
+            st[nm] = obj["state"][nm]
+            dic[nm].tensor = torch.tensor(st[nm], dtype=torch.float64)
+            v = float(model().reshape(()).item())
+            fv = float(build(spec_of(st))[0]().reshape(()).item())
+            if not (close(v, fv, 1e-12) or (math.isnan(v) and math.isnan(fv))):
+                out.append(f"after updating {nm}: live model {v!r}, fresh model {fv!r}")
+    except Exception as e:
+        out.append("raises " + repr(e)[:200])
+
+
 def replay(path: str) -> int:
     obj = json.loads(Path(path).read_text())
     T()
@@ -564,6 +758,32 @@ def replay(path: str) -> int:
         return 1
     c = _fix_tree(obj["case"])
     bad = False
+    if "history" in obj or "samples" in obj:
+        ck = Check("C09", "quick", 0)
+        print("histories and batches are re-searched with the recorded seed stream; recorded failing input:")
+        print(json.dumps({k: obj[k] for k in ("class", "history", "state", "special", "row", "batched", "alone") if k in obj})[:600])
+        if "samples" in obj:
+            torch, bdsk = T()["torch"], T()["bdsk"]
+            tt = lambda v: torch.tensor(v, dtype=torch.float64)  # noqa: E731
+            ss = [_fix_tree(x) for x in obj["samples"]]
+            singles = [impl_value(x) for x in ss]
+            try:
+                d = bdsk.PiecewiseConstantBirthDeath(tt([x["lam"] for x in ss]), tt([x["mu"] for x in ss]), tt([x["psi"] for x in ss]),
+                                                      rho=tt([x["rho"] for x in ss]), origin=tt([[ss[0]["times"][-1]]] * len(ss)), times=tt([x["times"][:-1] for x in ss]),
+                                                      survival=ss[0]["survival"], removal_probability=None if ss[0]["r"] is None else tt([x["r"] for x in ss]))
+                rows = d.log_prob(tt([x["tips"] + x["ints"] for x in ss])).reshape(-1).tolist()
+            except Exception as e:
+                rows = repr(e)
+            print("batched:", rows, "\nalone  :", singles)
+            bad = not (isinstance(rows, list) and len(rows) == len(ss) and all(k != "ok" or close(r, v, 1e-12) for r, (k, v) in zip(rows, singles)))
+        else:
+            out = []
+            histories_replay(obj, out)
+            bad = bool(out)
+            for line in out:
+                print(line)
+        print("VIOLATES" if bad else "ok")
+        return 1 if bad else 0
     if sig.startswith("BDSKModel") or sig.startswith("BirthDeathModel"):
         ck = Check("C09", "quick", 0)
         out = []
@@ -608,6 +828,6 @@ def replay(path: str) -> int:
             print("RK4 master equations:", rk)
             bad = kind != "ok" or not close(val - off, rk, 1e-6)
         else:
-            bad = kind != "ok"
+            bad = kind != "ok" or math.isnan(val)
     print("VIOLATES" if bad else "ok")
     return 1 if bad else 0
